@@ -306,28 +306,34 @@ func ruleTryLockPair(w *core.World, r *core.Report) {
 		}
 		for _, c := range core.OwnCallsTo(f, "sync.Mutex.TryLock") {
 			cls := core.FieldOf(core.CallRecv(c))
-			site := core.Site(f, "TryLock %s", cls)
-			var def ssa.CallInstruction
-			for _, d := range core.OwnCallsTo(f, "sync.Mutex.Unlock") {
-				if _, isDefer := d.(*ssa.Defer); isDefer && core.FieldOf(core.CallRecv(d)) == cls && guardedByThisBool(d, c.(*ssa.Call), true) {
-					def = d
-				}
+			// judged in the function that keeps the lock: f itself, or - when TryLock sits in a small helper that reports
+			// the outcome - every function the helper is part of
+			for _, host := range core.Roots(f) {
+				core.WithHost(host, func() {
+					site := core.Site(host, "TryLock %s", cls)
+					var def ssa.CallInstruction
+					for _, d := range core.CallsTo(host, "sync.Mutex.Unlock") {
+						if _, isDefer := d.(*ssa.Defer); isDefer && core.FieldOf(core.CallRecv(d)) == cls && guardedByThisBool(d, c.(*ssa.Call), true) {
+							def = d
+						}
+					}
+					if def == nil {
+						r.Viol("TRYLOCK-PAIR", site, w.InstrPos(c), "no 'defer Unlock()' of the same mutex on the success edge of TryLock")
+						return
+					}
+					bad := ""
+					for _, o := range core.Calls(host) {
+						if o == def || o == c {
+							continue
+						}
+						if guardedByThisBool(o, c.(*ssa.Call), true) && !core.InstrBefore(def, o) {
+							bad = core.CalleeKey(o) + " at " + w.InstrPos(o)
+							break
+						}
+					}
+					r.Check(bad == "", "TRYLOCK-PAIR", site, w.InstrPos(c), "defer Unlock() must precede every other call on the locked path; found before it: "+bad)
+				})
 			}
-			if def == nil {
-				r.Viol("TRYLOCK-PAIR", site, w.InstrPos(c), "no 'defer Unlock()' of the same mutex on the success edge of TryLock")
-				continue
-			}
-			bad := ""
-			for _, o := range core.OwnCalls(f) {
-				if o == def || o == c {
-					continue
-				}
-				if guardedByThisBool(o, c.(*ssa.Call), true) && !core.InstrBefore(def, o) {
-					bad = core.CalleeKey(o) + " at " + w.InstrPos(o)
-					break
-				}
-			}
-			r.Check(bad == "", "TRYLOCK-PAIR", site, w.InstrPos(c), "defer Unlock() must precede every other call on the locked path; found before it: "+bad)
 		}
 	}
 }
@@ -377,7 +383,20 @@ func lockedBefore(x ssa.Instruction, class string) bool {
 			}
 		}
 	}
-	return locked && deferred
+	if locked && deferred {
+		return true
+	}
+	// x sits in a helper that is part of its callers: the lock is held at every call of the helper
+	if core.IsInlined(fn) {
+		sites := core.InlineSites(fn)
+		for _, s := range sites {
+			if !lockedBefore(s, class) {
+				return false
+			}
+		}
+		return len(sites) > 0
+	}
+	return false
 }
 
 // modifyErrLeaves: the non-nil outcome of the Modify's error test leaves the function (returns) without reaching later code.
